@@ -340,9 +340,10 @@ def feature_parity(ctx: Ctx, py: PyProgram, rs: RustProgram, rows: dict, ok_base
     from .c05 import EDGE_ADDR, rust_formulas
     from ..isa_sweep import Sweeper
     sw = Sweeper()
-    edge = [sw.run_case(None, op, None, ("analyze", "lift"), addr=EDGE_ADDR) for op in (0x02, 0x03, 0x04, 0x05)]
+    cf_ops = [0x02, 0x03, 0x04, 0x05] + sorted(op for op, r_ in rows.items() if r_.cls == "JP_Rel")
+    edge = [sw.run_case(None, op, None, ("analyze", "lift"), addr=EDGE_ADDR) for op in cf_ops]
     rust_formulas(ctx, py, rs, rows, edge, addr=EDGE_ADDR, tag="@page-edge")
-    rust_formulas(ctx, py, rs, rows, [sw.run_case(None, op, None, ("analyze", "lift")) for op in (0x02, 0x03, 0x04, 0x05)])
+    rust_formulas(ctx, py, rs, rows, [sw.run_case(None, op, None, ("analyze", "lift")) for op in cf_ops])
 
 
 # ---------------------------------------------------------------------------
